@@ -51,6 +51,24 @@ def make_world(kind, initial):
         kids = [sched.instrument(P.EchoPort()), sched.instrument(P.EchoPort())]
         p = sched.instrument(P.MultiPort(kids))
         ctx['kids'] = kids
+    elif kind == 'pqueue':
+        import queue as _q
+        from mido.backends._parser_queue import ParserQueue
+
+        class SQueue(_q.Queue):
+            def put(self, item, *a, **k):
+                sched.yp('qput')
+                return super().put(item, *a, **k)
+
+            def get_nowait(self):
+                sched.yp('qget')
+                return super().get_nowait()
+        p = ParserQueue()
+        p._queue = SQueue()
+        p._parser_lock = sched.SLock(p._parser_lock, True)
+        d = sched.SDeque()
+        p._parser.messages = d
+        return p, ctx
     else:
         raise KeyError(kind)
     target = ctx['input'] if kind == 'ioport' else p
@@ -76,6 +94,12 @@ def thread_fn(port, calls, record):
                 out.append(('many', list(port.iter_pending())))
             elif c[0] == 'receive':
                 out.append(('got', port.receive()))
+            elif c[0] == 'putbytes':
+                bs = [b for k in c[1] for b in portsim.msg_of(k).bytes()]
+                port.put_bytes(bs)
+                out.append(('put', list(c[1])))
+            elif c[0] == 'qpoll':
+                out.append(('got', port.poll()))
         record.extend(out)
         return out
     return f
@@ -131,6 +155,21 @@ def judge(prog, ob):
     for name, (st, val) in res.items():
         if st == 'raised':
             return f'{name} raised {type(val).__name__}: {val}'
+    if kind == 'pqueue':
+        put_by = {i: [k for c in calls if c[0] == 'putbytes' for k in c[1]] for i, calls in enumerate(threads)}
+        polled = []
+        for i, rec in enumerate(ob['records']):
+            polled += [portsim.ident(v) for tag, v in rec if tag == 'got' and v is not None]
+        rest = [portsim.ident(m) for m in ob['port'].iterpoll()]
+        order = polled + rest if sum(1 for calls in threads for c in calls if c[0] == 'qpoll') <= 1 or not polled else None
+        allp = [k for i in put_by for k in put_by[i]]
+        if sorted(polled + rest) != sorted(allp):
+            return f'messages put {sorted(allp)} but handed out / still queued {sorted(polled + rest)}'
+        if order is not None:
+            for i, ks in put_by.items():
+                if [k for k in order if k in ks] != ks:
+                    return f'messages of sender {i} come out in the order {[k for k in order if k in ks]}, they were put as {ks}'
+        return None
     sent_by = {i: [c[1] for c in calls if c[0] == 'send'] for i, calls in enumerate(threads)}
     all_sent = [k for i in sent_by for k in sent_by[i]]
     got = []
@@ -280,6 +319,9 @@ def gen_programs(ck):
     # MultiPort over two EchoPorts
     progs.append(('multi', [], [[('send', next(ids))], [('poll',), ('poll',)]]))
     progs.append(('multi', [], [[('send', next(ids))], [('send', next(ids))], [('pending',)]]))
+    # ParserQueue (the queue-backed parser of the backends): byte chunks from several threads
+    progs.append(('pqueue', [], [[('putbytes', [next(ids), next(ids)])], [('putbytes', [next(ids)])]]))
+    progs.append(('pqueue', [], [[('putbytes', [next(ids), next(ids)])], [('putbytes', [next(ids), next(ids)])], [('qpoll',)]]))
     # echo with iter_pending
     progs.append(('echo', [next(ids)], [[('send', next(ids))], [('pending',)], [('poll',)]]))
     return progs
